@@ -74,6 +74,10 @@ SEED = {
  "seedpatch-C03-b": ("C03", "/verif/seeded/C03-b/patch.diff"),
  "seedpatch-C04-b": ("C04", "/verif/seeded/C04-b/patch.diff"),
  "seedpatch-C05-b": ("C05", "/verif/seeded/C05-b/patch.diff"),
+ "seedpatch-C05-c": ("C05", "/verif/seeded/C05-c/patch.diff"),
+ "seedpatch-C06-c": ("C06", "/verif/seeded/C06-c/patch.diff"),
+ "seedpatch-C03-c": ("C03", "/verif/seeded/C03-c/patch.diff"),
+ "seedpatch-C01-c": ("C01", "/verif/seeded/C01-c/patch.diff"),
 }
 ENV = dict(os.environ, GOFLAGS="-mod=mod", GOPROXY="off", GOSUMDB="off", GOTOOLCHAIN="local")
 BASE = "go test -vet=off -count=1 ./bint/... ./eth/... ./jrpc2/... ./shovel/config/... ./shovel/glf/... ./wctx/... ./wos/... ./wslog/..."
